@@ -11,7 +11,7 @@ ToSet(s) == {s[i] : i \in 1..Len(s)}
 VendorOK(e) ==
   IF e.vendor = "corrupt"
   THEN e.out = "LoadError" \/ (e.out = "loaded" /\ e.same /\ e.orthonormal)     \* rejected, never loaded wrongly
-  ELSE /\ e.out = "loaded" /\ e.same /\ e.orthonormal
+  ELSE /\ e.out = "loaded" /\ e.same /\ e.orthonormal /\ e.irreps_ok
        /\ e.warning \in {WarningName(f) : f \in Admissible(e.vendor, ToSet(e.types))}
 Step ==
   /\ l <= Len(Traces[tid])
